@@ -8,6 +8,7 @@ package pubsub
 // the round exactly once.
 
 import (
+	"os"
 	"context"
 	"crypto/sha256"
 	"encoding/hex"
@@ -528,6 +529,7 @@ func c01RunInBubble(t *testing.T, c c01Case, res *vfResult) {
 			}
 		}
 		// publish
+		pubStart := s.now()
 		var sent []string
 		if r.Warm > 0 && len(r.Pubs) > 0 {
 			// more than ten heartbeats of traffic from one side before the messages that matter
@@ -571,6 +573,22 @@ func c01RunInBubble(t *testing.T, c c01Case, res *vfResult) {
 		}
 		// eager push + as many gossip rounds as there can be non-mesh hops
 		s.wait(time.Duration(N+4) * time.Second)
+		// "the meshes have settled" is part of the antecedent, so it is checked: a GRAFT or PRUNE anywhere in the network
+		// from two heartbeats before the first publication on means a mesh was changing under the messages (a message
+		// published while a mesh is empty and a peer is grafted at the next heartbeat is neither pushed nor advertised
+		// to that peer). Such a round is still checked for duplicates and foreign messages, not for completeness.
+		meshChanged := false
+		for j := 0; j < N && !meshChanged; j++ {
+			for _, e := range s.nodes[j].raw.snapshot() {
+				if (e.Kind == "graft" || e.Kind == "prune") && e.At >= pubStart-2500*time.Millisecond {
+					meshChanged = true
+					break
+				}
+			}
+		}
+		if meshChanged {
+			res.label("mesh-changed-during-round (completeness not judged)")
+		}
 		// drain
 		for i := 0; i < N; i++ {
 			for si, sub := range subs[i] {
@@ -586,7 +604,33 @@ func c01RunInBubble(t *testing.T, c c01Case, res *vfResult) {
 				}
 				for _, d := range sent {
 					switch {
+					case got[d] == 0 && meshChanged:
 					case got[d] == 0:
+						if os.Getenv("VF_DEBUG") != "" {
+							for j := 0; j < N; j++ {
+								for _, e := range s.nodes[j].raw.snapshot() {
+									hit := false
+									if e.RPC != nil {
+										for _, pm := range e.RPC.GetPublish() {
+											hit = hit || string(pm.Data) == d
+										}
+										if ctl := e.RPC.GetControl(); ctl != nil && (len(ctl.Ihave) > 0 || len(ctl.Iwant) > 0 || len(ctl.Prune) > 0 || len(ctl.Graft) > 0) && e.At > s.now()-20*time.Second {
+											fmt.Printf("DEBUG node %d %v %-5s peer=%d ctl ihave=%d iwant=%d graft=%d prune=%d\n", j, e.At, e.Kind, s.idx(e.Peer), len(ctl.Ihave), len(ctl.Iwant), len(ctl.Graft), len(ctl.Prune))
+										}
+									}
+									if e.RPC != nil && len(e.RPC.GetPublish()) > 0 && e.At > s.now()-12*time.Second && (j == 1 || s.idx(e.Peer) == 1) {
+										dd := string(e.RPC.GetPublish()[0].Data)
+										if len(dd) > 12 {
+											dd = dd[:12]
+										}
+										fmt.Printf("DEBUG node %d %v %-5s peer=%d publish %d msgs first=%q\n", j, e.At, e.Kind, s.idx(e.Peer), len(e.RPC.GetPublish()), dd)
+									}
+									if hit || (e.MsgID != "" && e.Kind != "recv" && e.Kind != "send" && e.At > s.now()-20*time.Second && (e.Kind == "reject" || e.Kind == "undeliverable")) {
+										fmt.Printf("DEBUG node %d %v %-9s peer=%d reason=%s hit=%v\n", j, e.At, e.Kind, s.idx(e.Peer), e.Reason, hit)
+									}
+								}
+							}
+						}
 						res.violate("C01/not-delivered", ri, "round %d: node %d (%s) subscription %d never received %q published by node %s; overlay %s", ri, i, c.Routers[i], si, c01Short(d), c01Publisher(d), c01Overlay(st, c))
 					case got[d] > 1:
 						res.violate("C01/delivered-twice", ri, "round %d: node %d subscription %d received %q %d times", ri, i, si, c01Short(d), got[d])
